@@ -79,3 +79,25 @@ check(
     assumptions=["arr_int arithmetic and magnitudes beyond 1e+-100 are not claimed (skipped and counted)",
                  "combinations the headers reject at compile time (complex into real compound assignment) cannot be observed at run time"],
 )
+
+check(
+    "C04",
+    runs=[dict(harness="C04_slice", flavour="asan", opts={"bigscale": "0.25"}),
+          dict(harness="C04_slice", flavour="plain")],
+    rule=("exhaustive (n,i1,i2,step) with n in 0..10, i1,i2 in [-n-3,n+3], step in [-5,5] for real and complex arrays, mutable and const, "
+          "plus the end placeholder: throw/no-throw against the statement's rules, nine read forms (array from slice, *slice, iteration, "
+          "copies of slice_t/const_slice_t, const_slice_t(slice_t)) against the Python index list, and writes of scalar / array / "
+          "initializer list / foreign strided slice (mutable and const) of every length relation into sentinel-filled arrays; every "
+          "pair (dst slice, src slice) of equal count on one array (n<=6 quick + 1/16 sample of n=7,8; n<=8 thorough); random tuples for n up to 1e5. "
+          "Run under ASan+UBSan and plain. non-trivial = valid non-empty slice; distinct = hash of the tuple / pair."),
+    exhaustive_subspaces={"quick": ["all (n<=10, i1, i2, step) tuples x {real,complex} x {mutable,const,end}", "all aliasing slice pairs for n<=6"],
+                          "thorough": ["all (n<=10, i1, i2, step) tuples x {real,complex} x {mutable,const,end}", "all aliasing slice pairs for n<=8"]},
+    min_distinct={"quick": 20000, "thorough": 100000},
+    technique="runtime monitor: Python slice.indices reference + sentinel-array write oracle, under AddressSanitizer/UBSan",
+    level_text=("The complete small tuple space of the quantifier is executed (reads, writes of every right-hand-side kind and length, "
+                "all aliasing pairs) against an index-list reference while ASan watches the array's heap block; held on the "
+                "evaluations counted in the evidence."),
+    level_note="trusted: the 25-line Python-slice reference in the harness; ASan red zones only see accesses outside the array's heap block",
+    assumptions=["x.slice(0,n) = x (same object) throws by design and is not judged either way",
+                 "index magnitudes beyond +-(n+3) are not driven"],
+)
